@@ -390,8 +390,9 @@ def _orientation(prog, res):
 
 
 def _scalings_form(prog, fn):
-  """(sign expression ok, multiplier ok, guard ok)"""
+  """(sign expression ok, multiplier ok, guard ok, once per dimension)"""
   sign_ok = mult_ok = guard_ok = False
+  once_ok = True
   for st in ast.walk(fn.node):
     if isinstance(st, ast.Assign) and dotted(st.targets[0]) == 'scalings' \
         and isinstance(st.value, ast.ListComp):
@@ -413,14 +414,27 @@ def _scalings_form(prog, fn):
       for t, pol in gs:
         reads |= names_read(t)
       guard_ok = {dotted(v.left), dotted(v.right)} <= reads
-  return sign_ok, mult_ok, guard_ok
+      # the width of a dimension enters its scaling ONCE: not inside a loop
+      # over the dominance pairs (a dimension shared by k pairs would be
+      # scaled by width**k when the k-th pair is judged)
+      for loop in ast.walk(fn.node):
+        if isinstance(loop, ast.For) and any(x is st for x in ast.walk(loop)) \
+            and any(r.endswith('dominances') for r in names_read(loop.iter)):
+          once_ok = False
+  return sign_ok, mult_ok, guard_ok, once_ok
 
 
 def _scaling(prog, res):
   pr = prog.function('linear_lib.project')
   asf = prog.function('linear_lib.assert_constraints')
   for fn in (pr, asf):
-    s, m, g = _scalings_form(prog, fn)
+    s, m, g, once = _scalings_form(prog, fn)
+    res.check(once, 'P4', '%s|scalings-once' % fn.qualname, fn.loc(),
+              'each dimension is scaled by its range width once',
+              'in %s the range width is multiplied into scalings inside the '
+              'loop over dominance pairs: a dimension shared by several pairs '
+              'is scaled repeatedly, so later pairs are judged with the wrong '
+              'scale' % fn.name)
     res.check(s and m and g, 'P4', '%s|scalings' % fn.qualname, fn.loc(),
               'scalings = sign(monotonicity) * (upper - lower) where both '
               'bounds exist',
